@@ -59,7 +59,12 @@ func NewSlidingWindowMetric(sampleCount, intervalInMs uint32, real *BucketLeapAr
 func (m *SlidingWindowMetric) getBucketStartRange(timeMs uint64) (start, end uint64) {
 	curBucketStartTime := calculateStartTime(timeMs, m.real.BucketLengthInMs())
 	end = curBucketStartTime
-	start = end - uint64(m.intervalInMs) + uint64(m.real.BucketLengthInMs())
+	if windowEnd := end + uint64(m.real.BucketLengthInMs()); windowEnd > uint64(m.intervalInMs) {
+		start = windowEnd - uint64(m.intervalInMs)
+	} else {
+		// the window reaches back to (or before) time zero: do not let the unsigned subtraction wrap around
+		start = 0
+	}
 	return
 }
 
